@@ -275,12 +275,12 @@ func Verif_C11_BulkDeep() {
 }
 
 //verif:entry tier=quick,thorough steps=4000000 preempt=1 allowdeadlock cover=wait
-//verif:doc PeriodicalExecutor over the real chunkContainer (ChunkExecutor): chunk-size threshold 2 with task sizes 1..2 for the first two Adds (symbolic choice), 2 own tasks + 1 concurrent task, no tick (thorough 0..1 ticks); same assertions. Schedules with at most 1 preemption.
+//verif:doc PeriodicalExecutor over the real chunkContainer (ChunkExecutor): chunk-size threshold 2 with task sizes 0..2 for the first two Adds (symbolic choice; a size-0 chunk never moves the byte counter but must still be executed), 2 own tasks + 1 concurrent task, no tick (thorough 0..1 ticks); same assertions. Schedules with at most 1 preemption.
 func Verif_C11_Chunk() {
 	w := c11NewWorld()
 	c := &c11Spy{inner: &chunkContainer{execute: w.execute, maxChunkSize: 2}, w: w}
 	pe := NewPeriodicalExecutor(c11Interval, c)
-	sizes := []int{1 + rt.Choose("size", 2), 1 + rt.Choose("size", 2), 1}
+	sizes := []int{rt.Choose("size", 3), rt.Choose("size", 3), 1}
 	k := 0
 	add := func(id int) {
 		sz := sizes[k%3]
